@@ -51,12 +51,12 @@ CHECKS = {
 
  "C18": ("E1 ring model + E6 OS fault harness", "exploration",
    "stateful property testing against /proc observations; fault injection in child processes (RLIMIT_AS, map-count exhaustion)",
-   "Generated create/use/drop histories of up to 200 buffers over 1-8 threads must return the count of deleted-file mappings and of descriptors to the baseline; the mapping layout and byte-for-byte aliasing of the halves is checked for every offset; the set-up table (element kinds x valid/invalid sizes) is enumerated; mapping failures injected in child processes must surface as Err without leaks.",
+   "Generated create/use/drop histories of up to 200 buffers over 1-8 threads must return the count of deleted-file mappings and of descriptors to the baseline; the mapping layout and byte-for-byte aliasing of the halves is checked for every offset; the set-up table (element kinds x valid/invalid/huge sizes up to 2^63-4096, where the kernel may refuse at ftruncate or mmap) is enumerated and extended by generated sizes; mapping failures injected in child processes must surface as Err without leaks.",
    "only stream-attributable /proc entries are counted; single-threaded check; injected faults are ENOMEM from RLIMIT_AS and vm.max_map_count", "DESIGN.md §5 C18"),
 
  "C17": ("E6 OS fault harness", "fault_enumeration",
-   "model-based testing of open modes (enumerated) + crash-point fault injection (SIGKILL of a child process at generated points, prefix/acknowledgement oracle)",
-   "All 54 combinations of mode x initial file state x sink kind are enumerated against a model of the documented modes; a child process streams seeded data through the sink and acknowledges consumed counts after every work(); it is SIGKILLed after a generated number of acknowledgements plus a generated spin, and the file must be a prefix of the serialised stream at least as long as what was acknowledged.",
+   "model-based testing of open modes (enumerated) + crash-point enumeration (file inspected after every work() return, generated batch sizes / sample types / stream sizes) + crash-point fault injection (SIGKILL of a child process at generated points, prefix/acknowledgement oracle)",
+   "All 54 combinations of mode x initial file state x sink kind are enumerated against a model of the documented modes; a child process streams seeded data through the sink and acknowledges consumed counts after every work(); it is SIGKILLed after a generated number of acknowledgements plus a generated spin, and the file must be a prefix of the serialised stream at least as long as what was acknowledged; in-process, the file is read through a second descriptor after every work() return (what a kill at that instant leaves) for FileSink<u8|f32|Complex|u32> with batches of 1-200 000 samples on 8 KiB-4 MB streams.",
    "process death, not power loss; root user (structural instead of permission-based failures); kill instants sampled, oracle valid for any instant", "DESIGN.md §5 C17"),
 
  "C03": ("E4 schedule explorer", "exploration",
@@ -70,7 +70,7 @@ CHECKS = {
 
  "C05": ("E4 schedule explorer + E5 graph generator", "exploration",
    "differential + schedule-exploring property testing (generated graph x generated scheduler decisions on the shuttle runtime vs sequential reference executor) + real-thread runs",
-   "Generated graphs (chains, balanced diamonds, merges, rate changers, packet stage) run unmodified under MTGraph with its block threads as coroutines whose every lock/wait/spawn/exit/drop is scheduled by generated bytes (wait timeouts firing at generated moments); run() must return Ok with every sink equal to the sequential reference execution on 4 MB streams; deadlock or fair-schedule non-termination is a violation; 16 (thorough 96) graphs also run on real threads.",
+   "Generated graphs (chains, balanced diamonds, merges, rate changers, packet stage) run unmodified under MTGraph with its block threads as coroutines whose every lock/wait/spawn/exit/drop is scheduled by generated bytes (wait timeouts firing at generated moments); run() must return Ok with every sink equal to the sequential reference execution on 4 MB streams; deadlock or fair-schedule non-termination is a violation; a second family of tiny end-of-stream graphs (a harness source delivering 1-4 pieces on its own clock, lengths at stream capacity +-2) gets most of the 20 000 quick executions, 1 500 (thorough 60 000) more run under shuttle's PCT scheduler, and 16 (thorough 96) graphs also run on real threads.",
    "balanced diamonds only; sequential consistency; bounded liveness", "DESIGN.md §5 C05"),
  "C06": ("E5 graph generator + reference executor", "exploration",
    "differential property testing (Graph::run on small streams and generated add orders vs sequential reference executor); add-order permutations enumerated for small graphs",
@@ -98,8 +98,8 @@ CHECKS = {
 
  "C20": ("E3 reference models (modulators) + both runners", "exploration",
    "round-trip property testing through the whole receive chain (independent HDLC framer + AFSK / G3RUH-FSK modulators -> library receive chains on Graph and MTGraph -> delivered packets == transmitted payloads)",
-   "Generated transmissions (1-8 frames of 10-300 bytes, random and stuffing-heavy, generated phase / symbol timing / amplitude, three resp. two sample rates) are modulated by independent Bell-202 AFSK and G3RUH 2-FSK modulators and fed to the receive chains assembled from library blocks with the examples' parameters, on both runners and two stream sizes; the delivered packets must equal the transmitted payloads exactly, once, in order, and agree between runners.",
-   "9600 chain uses the ZeroCrossing block; trailing flags follow the last frame (no end-of-input flush); noiseless signals", "DESIGN.md §5 C20"),
+   "Generated transmissions (1-8 frames of 10-300 bytes, random and stuffing-heavy, generated phase / symbol timing / amplitude, three resp. two sample rates) are modulated by independent Bell-202 AFSK and G3RUH 2-FSK modulators and fed to the receive chains assembled from library blocks with the examples' parameters, on both runners and two stream sizes, followed by trailing flags or by exact digital silence right after the closing flag and >= 1 idle flag; the delivered packets must equal the transmitted payloads exactly, once, in order, and agree between runners.",
+   "9600 chain uses the ZeroCrossing block; the last frame is followed by 40/300 trailing flags or by >= 1 idle flag and 16 000 / 64 000 samples of silence (no end-of-input flush in the chains); noiseless signals", "DESIGN.md §5 C20"),
 }
 
 NOT_YET = {}
